@@ -19,6 +19,7 @@ LEVEL = "exploration"
 RULE = (
     "server side: requested protocolVersion drawn from {each supported version, every well-formed calendar date string with year 1990..2189 "
     "(74,400, enumerated exhaustively), malformed near-misses, non-strings, absent} x {with, without clientInfo} dispatched through ProtocolHandler; "
+    "histories of 2..6 handshakes on one handler (all of length 2 and 3 over 5 versions x every session-reuse pattern, longer ones drawn) with every answer re-read after the history; "
     "end-to-end: send_initialize with every supported-list (258) x preferred (8) of the C03 universe wired to ProtocolHandler.handle_message through an "
     "in-memory pump that serialises both directions as a transport would; oracle: answered version in the server's supported set, equals the request's when supported, "
     "one new session carrying the answered version; end-to-end outcome is agreement on a version both sides support or VersionMismatchError; "
@@ -52,9 +53,80 @@ def _supported() -> List[str]:
 ABSENT = "$absent"
 
 
+def check_seq(case: Dict[str, Any]) -> Outcome:
+    """a history of handshakes on ONE handler (several clients of one server, or re-initialisation): every answer is
+    looked at twice - when it is returned and again after the whole history (an outgoing queue serialises later) - and
+    every session must end up carrying the version that its own handshake was answered with."""
+    from chuk_mcp.protocol.messages.json_rpc_message import parse_message
+
+    out = Outcome()
+    sup = _supported()
+    h = _handler()
+    steps: List[Dict[str, Any]] = case["seq"]
+    kept: List[Dict[str, Any]] = []
+    sids: List[Optional[str]] = []
+
+    async def go():
+        for k, st_ in enumerate(steps):
+            params: Dict[str, Any] = {"capabilities": {}, "clientInfo": {"name": f"c{k}", "version": "1"}}
+            if st_["version"] != ABSENT:
+                params["protocolVersion"] = st_["version"]
+            msg = parse_message({"jsonrpc": "2.0", "id": k, "method": "initialize", "params": params})
+            reuse = st_.get("reuse")
+            sid_in = sids[reuse] if reuse is not None and reuse < len(sids) else None
+            resp, sid = await h.handle_message(msg, sid_in)
+            sids.append(sid or sid_in)
+            kept.append({"resp": resp, "now": json.loads(resp.model_dump_json(exclude_none=True)) if resp is not None else None, "sid": sid, "sid_in": sid_in})
+
+    try:
+        run_virtual(go)
+    except Exception as e:  # noqa
+        out.fail("initialize-dispatch-raised", f"history {steps!r}: {type(e).__name__}: {e}")
+        return out
+    versions = [st_["version"] for st_ in steps]
+    out.nontrivial = len({json.dumps(v) for v in versions}) > 1
+    out.classes = ("history", f"len:{len(steps)}", "mixed-versions" if out.nontrivial else "one-version", "with-reuse" if any(st_.get("reuse") is not None for st_ in steps) else "no-reuse")
+    sessions = h.session_manager.list_sessions()
+    last_for_sid: Dict[str, Any] = {}
+    for k, (st_, kp) in enumerate(zip(steps, kept)):
+        if kp["resp"] is None:
+            out.fail("initialize-request-not-answered", f"step {k} version={st_['version']!r}")
+            return out
+        later = json.loads(kp["resp"].model_dump_json(exclude_none=True))
+        if not strict_eq(later, kp["now"]):
+            out.fail("earlier-answer-changed-by-a-later-handshake", f"step {k} (requested {st_['version']!r}) answered {kp['now'].get('result', {}).get('protocolVersion')!r} when returned, "
+                     f"reads {later.get('result', {}).get('protocolVersion')!r} after the history {versions!r}")
+            return out
+        kind, _why = classify(later)
+        if kind != "result":
+            continue
+        answered = (later.get("result") or {}).get("protocolVersion")
+        if not (isinstance(answered, str) and answered in sup):
+            out.fail("unsupported-version-acknowledged", f"step {k}: requested {st_['version']!r} -> answered {answered!r}")
+            return out
+        if isinstance(st_["version"], str) and st_["version"] in sup and answered != st_["version"]:
+            out.fail("supported-version-not-echoed", f"step {k}: requested {st_['version']!r} answered {answered!r}")
+            return out
+        sid = kp["sid"] or kp["sid_in"]
+        if sid is not None:
+            last_for_sid[sid] = answered
+    for sid, answered in last_for_sid.items():
+        s_ = sessions.get(sid)
+        if s_ is None:
+            out.fail("session-missing-after-handshake", f"sid {sid!r}")
+        elif not strict_eq(s_.protocol_version, answered):
+            out.fail("session-version-differs-from-answered", f"history {versions!r}: session answered {answered!r} carries {s_.protocol_version!r}")
+    for s_ in sessions.values():
+        if s_.protocol_version not in sup:
+            out.fail("session-records-unsupported-version", f"{s_.protocol_version!r} after history {versions!r}")
+    return out
+
+
 def check(case: Dict[str, Any]) -> Outcome:
     if case.get("e2e"):
         return check_e2e(case)
+    if "seq" in case:
+        return check_seq(case)
     from chuk_mcp.protocol.messages.json_rpc_message import JSONRPCRequest, parse_message
 
     out = Outcome()
@@ -255,13 +327,39 @@ def job_hyp(col: Collector, seed: int, tier: str, shard: int, n: int) -> None:
     hyp_run(col, seed * 1000 + shard, cases(), check, n)
 
 
-JOBS = {"dates": job_dates, "e2e": job_e2e, "hyp": job_hyp}
+SEQ_VERSIONS = ["2025-06-18", "2025-03-26", "2024-11-05", "1999-01-01", ABSENT]
+
+
+def job_seq(col: Collector, seed: int, tier: str) -> None:
+    """all histories of 2 and 3 handshakes over 5 requested versions x every session-reuse pattern (none / an earlier step's session)."""
+    for L in (2, 3):
+        for vs in itertools.product(SEQ_VERSIONS, repeat=L):
+            for reuse in itertools.product(*[[None] + list(range(k)) for k in range(L)]):
+                case = {"seq": [{"version": v, "reuse": r} for v, r in zip(vs, reuse)]}
+                col.record(case, check(case))
+    col.exhaustive_parts.append("handshake histories on one handler: length 2 and 3 over {3 supported versions, an unsupported date, absent} x every session-reuse pattern")
+
+
+@st.composite
+def seq_cases(draw):
+    n = draw(st.integers(2, 6))
+    seq = []
+    for k in range(n):
+        seq.append({"version": draw(st.one_of(st.sampled_from(SEQ_VERSIONS), _versions)), "reuse": draw(st.one_of(st.none(), st.integers(0, k - 1))) if k else None})
+    return {"seq": seq}
+
+
+def job_seq_hyp(col: Collector, seed: int, tier: str, shard: int, n: int) -> None:
+    hyp_run(col, seed * 1000 + 300 + shard, seq_cases(), check, n)
+
+
+JOBS = {"dates": job_dates, "e2e": job_e2e, "hyp": job_hyp, "seq": job_seq, "seq_hyp": job_seq_hyp}
 
 
 def jobs(tier: str):
     if tier == "quick":
-        return [("dates", {"shard": s, "nshards": 11}) for s in range(11)] + [("e2e", {"shard": s, "nshards": 3}) for s in range(3)] + [("hyp", {"shard": s, "n": 600}) for s in range(2)]
-    return [("dates", {"shard": s, "nshards": 10}) for s in range(10)] + [("e2e", {"shard": s, "nshards": 3}) for s in range(3)] + [("hyp", {"shard": s, "n": 20000}) for s in range(3)]
+        return [("dates", {"shard": s, "nshards": 11}) for s in range(11)] + [("e2e", {"shard": s, "nshards": 3}) for s in range(3)] + [("hyp", {"shard": s, "n": 600}) for s in range(2)] + [("seq", {}), ("seq_hyp", {"shard": 0, "n": 300})]
+    return [("dates", {"shard": s, "nshards": 10}) for s in range(10)] + [("e2e", {"shard": s, "nshards": 3}) for s in range(3)] + [("hyp", {"shard": s, "n": 20000}) for s in range(3)] + [("seq", {}), ("seq_hyp", {"shard": 0, "n": 10000})]
 
 
 def shrink(signature: str, seed: int):
